@@ -106,6 +106,20 @@ Theorem C11_view_through_debuglink :
 Proof. exact debuglink_view. Qed.
 Print Assumptions C11_view_through_debuglink.
 
+(* the objcopy workflow: stripped file + link to a keep-debug copy of the original shows the
+   view of the original *)
+Theorem C11_only_keep_debug_workflow :
+  forall (inflate : list Z -> Z -> option (list Z * bool)) (parse : list Z -> option elf)
+         es name pad crc off tail load dbg e fill,
+  presence es true = false -> debuglink_ok name pad crc = true ->
+  load name = Some dbg -> crc32_poly dbg = crc -> parse dbg = Some (T_keep_debug fill e) ->
+  forall fuel relocate,
+  debug_view inflate parse (S fuel) (Some load)
+             (add_section (debuglink_sec (e_le es) name pad crc off tail) es) relocate true
+  = debug_view inflate parse fuel (Some load) e relocate true.
+Proof. exact keep_debug_workflow. Qed.
+Print Assumptions C11_only_keep_debug_workflow.
+
 (* ... and when the link is not followed (no loader, follow_links=False, or the file has
    debug info of its own) it is inert *)
 Theorem C11_debuglink_inert :
